@@ -87,6 +87,58 @@ def delegation_rule(rep, prog, cfg):
     return types
 
 
+def hole_skip_rule(rep, prog, cfg):
+    """Fields / IntoIter walk a vector of optional slots (Frame::get leaves `None` holes).  On a hole the method must go on to the
+    next slot by re-entering itself (recursion) or looping back to the inner call — returning from the hole arm (e.g.
+    `inner.next().flatten()`, which steps over exactly one hole) ends the iteration early when two removed fields are adjacent."""
+    rule = "C19.delegation"
+    n = 0
+    for imp in wrapper_types(prog):
+        st = imp["info"]["self"]
+        short = st.split("<")[0].rsplit("::", 1)[-1]
+        if short not in ("Fields", "IntoIter"):
+            continue
+        for it in imp["items"]:
+            if it["name"] not in ("next", "next_back") or it["def"] not in prog.bodies:
+                continue
+            b = prog.bodies[it["def"]]
+            g = Cfg(b)
+            inner = [bb for bb, t in b.calls() if any(x in (IT + "next", DE + "next_back") for x in callee_names(t))
+                     and t["args"] and ref_field_of_local(b, op_local(t["args"][0])) is not None]
+            inst = "%s/%s::%s skips every hole" % (cfg, short, it["name"])
+            flat = [bb for bb, t in b.calls() if any(x == IT + "flatten" for x in callee_names(t))]
+            if not inner and flat:
+                # `self.iter.by_ref().flatten().next()`: the adapter steps over every hole by construction
+                n += 1
+                rep.ok(rule, inst)
+                continue
+            if not inner:
+                rep.fail(rule, inst, b.loc(b.span), "no call of the wrapped iterator in %s::%s (idiom unknown: failing closed)" % (short, it["name"]))
+                continue
+            n += 1
+            again = set(inner) | {bb for bb, t in b.calls() if (callee(t) or {}).get("inst") == b.id}
+            bad = None
+            for ib in inner:
+                res = b.blocks[ib]["t"]["dest"]["l"]
+                # the hole: outer Some, inner None
+                outer = [x for x in tables.discr_switches(b) if x["place"]["l"] == res and not x["place"]["p"]]
+                inner_sw = [x for x in tables.discr_switches(b) if x["place"]["l"] == res and any(isinstance(e, dict) and e.get("n") == "Some" for e in x["place"]["p"])]
+                hole = None
+                for x in inner_sw:
+                    hole = x["arms"].get("None", x["otherwise"] if "Some" in x["arms"] else None)
+                if not outer or hole is None:
+                    bad = (b.blocks[ib]["ts"], "the result of the wrapped iterator is used without a test for an emptied slot (Some(None)) in %s::%s: a hole "
+                           "ends the iteration (or is yielded as None) while fields remain" % (short, it["name"]))
+                    break
+                escapes = [x for x in reach(g.succs, [hole], avoid=again) if b.blocks[x]["t"]["k"] == "return"]
+                if escapes:
+                    bad = (b.blocks[hole]["ts"], "%s::%s can return from the arm for an emptied slot without trying the next slot again: with two adjacent "
+                           "removed fields the iteration ends (or yields None) while fields remain" % (short, it["name"]))
+                    break
+            rep.check(bad is None, rule, inst, b.loc(bad[0] if bad else b.span), bad[1] if bad else "")
+    rep.floor(rule, cfg + "/hole-skipping methods", n, 4)
+
+
 def variant_edge(body, call_bb, variant_value):
     """(switch block, target) taken when the Option returned by the call in call_bb has the given
     discriminant (0 = None, 1 = Some)."""
@@ -313,6 +365,25 @@ def first_match_rule(rep, prog, cfg):
                   "an empty blob, and with is_empty()" % extra)
     else:
         rep.fail(rule + ".anchor", cfg + "/Frame::has_binary", F + "has_binary", "public anchor not found")
+    # take_binary() (on the frame and on its by-value iterator) removes the blob: the documented contract is that a second call, binary()
+    # and has_binary() then see nothing.  The blob must leave the field through Option::take / mem::take / mem::replace (or the field be
+    # reassigned) — handing out a clone leaves the frame non-empty for ever.
+    tb = [b for b in prog.bodies.values() if norm(b.name).endswith("::take_binary") and "mpd_protocol::response::frame" in b.id]
+    for b in tb:
+        owner = norm(b.name).rsplit("::", 2)[-2]
+        removes = False
+        for bb, t in b.calls():
+            nm = [n.split("::<")[0] for n in callee_names(t)]
+            if any(n in ("core::option::Option::take", "core::option::Option::<T>::take", "core::mem::take", "core::mem::replace") or
+                   n.endswith("Option::<T>::take") for n in nm) and t["args"] and ref_field_of_local(b, op_local(t["args"][0])) == "binary":
+                removes = True
+        for bb, i, st in b.stmts():
+            if st["k"] == "assign" and last_named_field(st["place"]) == "binary" and st["place"]["p"] and st["place"]["p"][-1] != "*":
+                removes = True
+        rep.check(removes, rule, cfg + "/%s::take_binary removes the blob" % owner, b.loc(b.span),
+                  "%s::take_binary never takes the blob out of the `binary` field (no Option::take / mem::take / mem::replace on it, no reassignment): "
+                  "the blob is handed out again on every call and has_binary()/is_empty() keep reporting it" % owner)
+    rep.floor(rule, cfg + "/take_binary methods", len(tb), 2)
     bs = body_by_name(prog, F + "is_empty")
     if len(bs) == 1:
         names = set()
@@ -341,6 +412,7 @@ def run(rep, progs, tier):
     rep.trusted = ["rustc MIR construction and callee resolution", "mpdfacts exporter", "std iterator semantics (slice::Iter, vec::IntoIter)"]
     for cfg, prog in progs.items():
         types = delegation_rule(rep, prog, cfg)
+        hole_skip_rule(rep, prog, cfg)
         error_last_rule(rep, prog, cfg)
         two_source_rule(rep, prog, cfg)
         single_frame_rule(rep, prog, cfg)
